@@ -493,3 +493,19 @@ func relPkg(p *core.Program, path string) string {
 	}
 	return r
 }
+
+
+// blocksInOrder: the blocks of a loop in the order of the function (obligation keys are numbered
+// in the order the rule meets the constructs: that order must not depend on map iteration).
+func blocksInOrder(lp *loop) []*ssa.BasicBlock {
+	var out []*ssa.BasicBlock
+	if lp.Head == nil {
+		return nil
+	}
+	for _, b := range lp.Head.Parent().Blocks {
+		if lp.Blocks[b] {
+			out = append(out, b)
+		}
+	}
+	return out
+}
